@@ -13,6 +13,7 @@ Oracle on the implementation alone, written from the property statement:
   * no entry point panics or aborts (stack overflow)."""
 import itertools
 from vlib import common as C
+from vlib import gen_c14 as G
 
 DRIVERS = ['Request']   # model driver files this check runs: scopes translator failures to the tables they (and the proofs) import
 TRUSTED = ['Rust std as modelled in Rws.Utf8: String::from_utf8 (validity), str::trim/trim_start/trim_end (Unicode White_Space); both tied differentially (ops utf8valid, utf8trim)',
@@ -133,6 +134,7 @@ def wf_request(rng, nh=None):
 
 def run(res, tier, seed):
     rng = C.Rng(seed)
+    grng = rng.fork('gen_c14')
     quick = tier == 'quick'
     lines, meta = [], []
     def add(line, kind, payload=None):
@@ -360,6 +362,46 @@ def run(res, tier, seed):
         pool = [chr(c) for c in WS + NOT_WS] + list('abé€😀')
         tr(''.join(rng.choice(pool) for _ in range(rng.range(0, 9))), 'random')
 
+    # ---------------------------------------------------------------- 6. the classes of vlib/gen_c14.py
+    # sizes around buffers, multi-byte characters across offsets, header counts around powers of two, headers that mean
+    # something (Content-Length against the body, Transfer-Encoding, Expect, Connection ...), every header constant of the
+    # source, target shapes, white space at the edges of names / values / bodies, repeated headers, token near-misses of every
+    # method and version, messages a stricter parser would refuse, near-names in lookups.  Own PRNG stream (forked at the start
+    # of the run): the cases above do not move.
+    for case in G.all_cases(grng, quick):
+        fam, kind = case[0], case[1]
+        if kind == 'rt':
+            r, also_gen = case[2], case[3]
+            add('reqrt ' + show_request(*r), 'rt', r + (fam,))
+            if also_gen: add('reqgen ' + show_request(*r), 'gen', r)
+        elif kind == 'rtm':
+            add('reqrt ' + show_request(*case[2]), 'rt-malformed', None)
+        elif kind == 'parse':
+            add('reqparse ' + C.hx(case[2]), 'parse', (case[2], case[3]))
+        elif kind == 'line':
+            add('reqline ' + C.hx(case[2]), 'line', (case[2], case[3]))
+        elif kind == 'hdr':
+            n, v, eol = case[2]
+            add('reqhdr ' + C.hx((n + ': ' + v + eol).encode()), 'hdr', (n, v))
+        elif kind == 'lookup':
+            hs, q = case[2]
+            add('reqgethdr ' + show_headers(hs) + ' ' + C.hx(q), 'lookup', (hs, q))
+        else:
+            raise ValueError(kind)
+
+    # the few long cases are spread over the whole list (the two sides run it in contiguous shards)
+    heavy = [i for i, ln in enumerate(lines) if len(ln) > 20000]
+    if heavy:
+        hs_ = set(heavy)
+        light = [i for i in range(len(lines)) if i not in hs_]
+        step = max(1, len(light) // (len(heavy) + 1))
+        order, h = [], 0
+        for k, i in enumerate(light):
+            order.append(i)
+            if (k + 1) % step == 0 and h < len(heavy): order.append(heavy[h]); h += 1
+        order += heavy[h:]
+        lines[:] = [lines[i] for i in order]; meta[:] = [meta[i] for i in order]
+
     # ================================================================ run
     impl, model = C.run_both(lines)
     res.rule = ('round trip: seeded well-formed requests (9 methods x 4 versions in random letter case, targets without blank/LF incl. '
@@ -369,7 +411,15 @@ def run(res, tier, seed):
                 '(unknown tokens, separators, missing parts, all 25 White_Space scalars and their neighbours, scalars with ASCII case images, '
                 'ill-formed UTF-8 at every position), random heads and noise; header reader, header lookup (ASCII case variants exhaustively for '
                 'Host/Content-Length), UTF-8 validity (exhaustive 0..2 bytes, boundary 3/4-byte forms) and trim (every %s scalar); a case is '
-                'non-trivial when its input field is non-empty; distinct = distinct protocol lines' % ('BMP' if quick else 'Unicode'))
+                'non-trivial when its input field is non-empty; distinct = distinct protocol lines; plus the classes of vlib/gen_c14.py: '
+                'fields, lines, bodies and whole messages of 63..65537 bytes around every power of two and the 10000-byte server buffer, multi-byte '
+                'characters across those offsets, 51..1025 headers, Content-Length in every relation to the body / twice / with a pipelined '
+                'message, Transfer-Encoding with chunked bodies, Expect / Connection / Upgrade / Content-Encoding / Content-Type with matching '
+                'bodies, framing headers x every method x every version, every header constant of the source in six spellings, target forms x '
+                'every method and every non-white-space scalar below U+0300 in the target, white space and its neighbours at the edges of names / '
+                'values, 32 edge tokens and every byte at the edges of the body, repeated headers, near-misses of every method / version token '
+                'and tokens of other protocols with every counterpart, text after the version for every pair, messages a stricter parser would '
+                'refuse, near-names and long lists in lookups' % ('BMP' if quick else 'Unicode'))
     res.exhaustive = ('request line: all 432 letter-case variants of the 9 methods x all 64 variants of the 4 versions%s; all single-byte '
                       'replacements/insertions of %d canonical request lines; UTF-8 validity of all byte strings of length 0..2; trim of every '
                       '%s scalar' % (' (full product)' if not quick else ' (each against the exact spellings of the other)', len(canon),
@@ -399,6 +449,8 @@ def run(res, tier, seed):
                 res.fail('regression-' + tag, short, a[:200], None, f'regression case of fixed defect {tag}: expected {want[:200]}')
         elif kind == 'rt':
             res.count('roundtrip headers=%s' % (len(pl[3]) if len(pl[3]) < 4 else '4..50' if len(pl[3]) <= 50 else '>50'))
+            if len(pl) > 5: res.count('roundtrip class ' + pl[5])
+            pl = pl[:5]
             want = 'ok ' + show_request(*pl)
             if a != want:
                 res.fail('roundtrip', short, a[:300], None, f'parse(generate(r)) != r; expected {want[:300]}')
